@@ -70,7 +70,18 @@ impl<'a> Interp<'a> {
         if self.viols.iter().any(|v| v.prop == prop) {
             return;
         }
-        self.viols.push(Violation { prop, oracle, detail, step: self.step, op: self.cur });
+        self.viols.push(Violation { prop, oracle, detail, step: self.step, op: self.cur, soft: false });
+    }
+    /// a violation that does not end the case
+    pub fn viol_soft(&mut self, prop: &'static str, oracle: &'static str, detail: String) {
+        let n = self.viols.len();
+        self.viol(prop, oracle, detail);
+        if self.viols.len() > n {
+            self.viols[n].soft = true;
+        }
+    }
+    pub fn hard_viol(&self) -> bool {
+        self.viols.iter().any(|v| !v.soft)
     }
 
     #[inline]
@@ -267,8 +278,40 @@ impl<'a> Interp<'a> {
                 self.infos[i].readable = len_ok;
                 let d = format!("slot {} ({}) {}", i, if h.kind == 1 { "Bytes" } else { "BytesMut" }, why);
                 let dangling = matches!(h.blk, Some(b) if b.state == BState::Quarantined);
+                // the part of the range behind the handle's own block: does it lie in OTHER tracked blocks (allocators that
+                // place blocks back to back), and is any of them already freed?
+                let (mut over_live, mut over_freed) = (false, false);
+                if let (Some(b), false) = (h.blk, dangling) {
+                    let end = h.ptr.saturating_add(span);
+                    let mut cur = b.ptr + b.size;
+                    over_live = cur < end;
+                    while cur < end {
+                        match oalloc::block_of_byte(cur) {
+                            Some(nb) if nb.size > 0 => {
+                                if nb.state != BState::Live {
+                                    over_freed = true;
+                                    over_live = false;
+                                }
+                                cur = nb.ptr + nb.size;
+                            }
+                            _ => {
+                                over_live = false;
+                                break;
+                            }
+                        }
+                    }
+                }
+                if over_live && !over_freed {
+                    // the handle covers storage of a neighbouring live allocation it holds no reference on. Nothing freed is
+                    // involved yet, so the case goes on: what happens when that storage is released belongs to C03
+                    self.viol_soft("C02", "handle-range-outside-allocation", d.clone());
+                    if h.kind == 2 {
+                        self.viol_soft("C04", "region-not-in-single-live-allocation", d);
+                    }
+                    continue;
+                }
                 self.viol("C02", if dangling { "dangling-handle" } else { "handle-range-outside-allocation" }, d.clone());
-                if dangling {
+                if dangling || over_freed {
                     self.viol("C03", "freed-while-handle-alive", d.clone());
                 }
                 if h.kind == 2 {
@@ -606,7 +649,7 @@ impl<'a> Interp<'a> {
             self.step = n;
             self.cur = *op;
             self.exec(*op);
-            if !self.viols.is_empty() {
+            if self.hard_viol() || self.viols.len() > 2 {
                 self.ended = true;
                 return;
             }
@@ -636,7 +679,7 @@ impl<'a> Interp<'a> {
             }
             self.check_all(None);
             self.step += 1;
-            if !self.viols.is_empty() {
+            if self.hard_viol() || self.viols.len() > 2 {
                 self.ended = true;
                 return;
             }
